@@ -138,6 +138,35 @@ theorem context_sources {X : Type} (valid : Bytes → Bool) (i : Inputs X) (c : 
       subst h
       exact ⟨rfl, rfl, rfl, rfl, rfl, rfl, rfl, rfl⟩
 
+/-! ## M2p — the directories are the texts the platform wrote -/
+
+/-- **M2p.** The clause "contains exactly … the app, buildpack and layers directories", for every spelling: whatever byte
+strings the platform writes as `<layers>` argument and as value of `CNB_BUILDPACK_DIR` (absolute or relative, through links,
+with `.` / `..`, doubled or trailing slashes — `layers`, `bp` range over all of `Bytes`), and whatever `getcwd` reports
+(`cwd`), a context that is assembled carries exactly those texts: identity, nothing resolved, nothing normalised. The
+`<platform>` and `<plan>` texts are quantified as well; they are in no context field. -/
+theorem context_paths_are_supplied_verbatim {X : Type} (valid : Bytes → Bool) (i : Inputs X)
+    (layers : Option Bytes) (bp cwd platArg planArg : Bytes) (c : Ctx X)
+    (h : assemble valid { i with cwd := cwd, bpDir := bp, layersDir := layers, platArg := platArg, planArg := planArg } = .ok c) :
+    c.layersDir = layers ∧ c.bpDir = bp ∧ c.appDir = cwd := by
+  have hs := context_sources valid _ c h
+  exact ⟨hs.2.2.1, hs.2.1, hs.1⟩
+
+/-- **M2p'.** … and the spelling decides nothing else: rewriting the five paths leaves success / the reported error and every
+other context field as they were; the new context is the old one with the three directory texts replaced. (Together with
+`context_fields`: when nothing forces an error the context exists for every spelling.) -/
+theorem context_paths_are_supplied_verbatim_nothing_else {X : Type} (valid : Bytes → Bool) (i : Inputs X)
+    (layers : Option Bytes) (bp cwd platArg planArg : Bytes) :
+    assemble valid { i with cwd := cwd, bpDir := bp, layersDir := layers, platArg := platArg, planArg := planArg } =
+      (assemble valid i).map (fun c => { c with appDir := cwd, bpDir := bp, layersDir := layers }) := by
+  unfold assemble
+  cases readPlatformEnv valid i.plat with
+  | error e => rfl
+  | ok env =>
+    cases contextTarget valid i.vars with
+    | error e => rfl
+    | ok t => rfl
+
 /-! ## "A value that cannot be represented is a reported error" -/
 
 /-- The clause at full strength: whenever something supplied cannot be represented (or is mandatory and missing), the
@@ -229,5 +258,17 @@ example : readPlatformEnv utf8Valid (.entries sampleListing) = .ok [([76], []), 
 example : readPlatformEnv utf8Valid (.entries (sampleListing ++ [([66], .linkFile [255])])) = .error () := by rfl
 example : mustError utf8Valid { d7Witness with vars := { d7Witness.vars with variant := .unset }, plat := .entries sampleListing } = false := by decide
 example : mustError utf8Valid { d7Witness with vars := { d7Witness.vars with variant := .unset, dname := .unset } } = true := by decide
+
+/-- a build whose paths are written as `/r/mnt/./layers/` (a linked parent, a dot, a trailing slash), `../bp` (relative),
+`./plat//`, `/r/vol/0f3a/plan.toml`; the working directory is `/r/app` -/
+def spelledWitness : Inputs Unit :=
+  { cwd := strBytes "/r/app", bpDir := strBytes "../bp", layersDir := some (strBytes "/r/mnt/./layers/"),
+    platArg := strBytes "./plat//", planArg := strBytes "/r/vol/0f3a/plan.toml",
+    vars := { os := .val [108], arch := .val [97], variant := .unset, dname := .val [117], dver := .val [49] },
+    plat := .entries sampleListing, plan := some (), store := none, desc := () }
+
+example : mustError utf8Valid spelledWitness = false := by decide
+example : ∃ c, assemble utf8Valid spelledWitness = .ok c ∧ c.layersDir = some (strBytes "/r/mnt/./layers/") ∧
+    c.bpDir = strBytes "../bp" ∧ c.appDir = strBytes "/r/app" := ⟨_, rfl, rfl, rfl, rfl⟩
 
 end CnbVerif.C06
